@@ -68,6 +68,10 @@ func runC03(res *hx.Result, rng *hx.Rng, tier string, outdir string) {
 		}
 		pre = append(pre, tyVal{t, wg.GenValFull(rng, t, 2)}, tyVal{t, wg.GenVal(rng, t, 3)})
 	}
+	// types that differ but look alike to a cache keyed by part of a type, used one after the other
+	for _, t := range wg.CollidingTys() {
+		pre = append(pre, tyVal{t, wg.GenValFull(rng, t, 2)})
+	}
 	for i := 0; i < n+len(pre); i++ {
 		var t *wg.Ty
 		var v *wg.Val
